@@ -581,52 +581,43 @@ def r4_crash_window(ctx):
             return pos[("attr", "fit *")]
         return None
 
-    # ---- load_hdf5
-    ld = io.func("load_hdf5")
-    skip = set()
-    for n in walk_no_nested(ld, False):
-        if isinstance(n, ast.If) and any(isinstance(s, ast.Continue)
-                                         for s in n.body):
-            # facts that hold when the entry is NOT skipped
-            for a in atoms(n.test, False):
+    for fn, label, bases in ((io.func("load_hdf5"), "load_hdf5",
+                              ("h5gr", "attrs", "h5gr.attrs")),
+                             (io.func("hdf5_rated"), "hdf5_rated", None)):
+        reads = []
+        for n in walk_no_nested(fn, False):
+            if isinstance(n, ast.Subscript) and isinstance(n.ctx, ast.Load) \
+                    and const_str(n.slice):
+                base = norm(n.value)
+                if bases is not None and base not in bases:
+                    continue
+                if base.endswith("attrs") and "dset" not in base and \
+                        "meas" not in base:
+                    reads.append((("attr", const_str(n.slice)), n))
+                elif base == "h5gr":
+                    reads.append((("dataset", const_str(n.slice)), n))
+        ctx.floor(f"entry items read by {label}", len(reads), 2)
+        for item, node in reads:
+            present = {("group", W.group_name)}
+            for a in conditions_at(node):
                 nd = a.node
-                if isinstance(nd, ast.Compare) and isinstance(
-                        nd.ops[0], ast.In) and const_str(nd.left) and \
-                        a.pol:
+                if a.pol and isinstance(nd, ast.Compare) and isinstance(
+                        nd.ops[0], ast.In) and const_str(nd.left):
                     kind = "attr" if norm(nd.comparators[0]).endswith(
                         "attrs") else "dataset"
-                    skip.add((kind, const_str(nd.left)))
-    req = set()
-    for n in walk_no_nested(ld, False):
-        if isinstance(n, ast.Subscript) and isinstance(n.ctx, ast.Load) and \
-                const_str(n.slice):
-            base = norm(n.value)
-            if base == "h5gr":
-                req.add(("dataset", const_str(n.slice)))
-            elif base in ("attrs", "h5gr.attrs"):
-                req.add(("attr", const_str(n.slice)))
-    _check_window(ctx, ld, "load_hdf5", skip, req, position, order)
-    # ---- hdf5_rated
-    hr = io.func("hdf5_rated")
-    skip2, req2 = {("group", W.group_name)}, set()
-    for n in walk_no_nested(hr, False):
-        if isinstance(n, ast.Compare) and isinstance(n.ops[0], ast.In) and \
-                const_str(n.left) and norm(n.comparators[0]).endswith(
-                    ".attrs"):
-            skip2.add(("attr", const_str(n.left)))
-        if isinstance(n, ast.Subscript) and isinstance(n.ctx, ast.Load) and \
-                const_str(n.slice) and norm(n.value).endswith(".attrs"):
-            req2.add(("attr", const_str(n.slice)))
-    _check_window(ctx, hr, "hdf5_rated", skip2, req2, position, order)
+                    present.add((kind, const_str(nd.left)))
+            _check_window(ctx, fn, label, present, {item}, position, order,
+                          node)
 
 
-def _check_window(ctx, fn, name, skip, req, position, order):
+def _check_window(ctx, fn, name, skip, req, position, order, node=None):
     sp = [position(k, n) for k, n in skip]
-    if not skip or any(p is None for p in sp):
-        ctx.fail(fn, f"{name}: completeness test",
-                 f"{name} tests {sorted(skip)} which the writer does not "
-                 "create" if skip else f"{name} has no completeness test")
+    sp = [p for p in sp if p is not None]
+    if not sp:
+        ctx.fail(node or fn, f"{name}: completeness test",
+                 f"{name} has no completeness test")
         return
+    fn = node or fn
     last_skip = max(sp)
     for k, n in sorted(req):
         p = position(k, n)
